@@ -49,10 +49,14 @@ class Module:
                 self.tree = ast.parse(self.src, filename=str(path))
         except SyntaxError as e:
             raise AnalysisError(f"unit does not parse: {rel}: {e}")
+        # `pass` next to other statements does nothing: dropped before any rule looks at a block
         for node in ast.walk(self.tree):
-            for ch in ast.iter_child_nodes(node):
-                ch._parent = node  # type: ignore[attr-defined]
-        self.tree._parent = None  # type: ignore[attr-defined]
+            for f in ("body", "orelse", "finalbody"):
+                b = getattr(node, f, None)
+                if isinstance(b, list) and len(b) > 1 and any(isinstance(x, ast.Pass) for x in b):
+                    kept = [x for x in b if not isinstance(x, ast.Pass)]
+                    setattr(node, f, kept if kept else [b[0]])
+        self._link()
         self._index: dict[str, ast.AST] = {}
         self._build(self.tree.body, "")
         # locals renamed back to the reference names (a valid alpha-renaming: see alpha.py)
@@ -64,6 +68,24 @@ class Module:
                     m = alpha.normalise(rel, n, q)
                     if m:
                         self.renamed[q] = m
+        # temporaries the reference tree does not have, defined right before their single use, are written back in place
+        self.inlined: dict[str, list] = {}
+        if os.environ.get("PGVERIF_NO_ALPHA") != "1":
+            from . import alpha
+            for q, n in list(self._index.items()):
+                if isinstance(n, (ast.FunctionDef, ast.AsyncFunctionDef)):
+                    got = alpha.inline_new_temps(rel, n, q)
+                    if got:
+                        self.inlined[q] = got
+            if self.inlined:
+                ast.fix_missing_locations(self.tree)
+                self._link()
+
+    def _link(self):
+        for node in ast.walk(self.tree):
+            for ch in ast.iter_child_nodes(node):
+                ch._parent = node  # type: ignore[attr-defined]
+        self.tree._parent = None  # type: ignore[attr-defined]
 
     def _build(self, body, prefix):
         for st in body:
@@ -377,6 +399,20 @@ def same_expr(node, expected: str, vars=None, bind=None) -> bool:
     except SyntaxError:
         return False
     return _match(e, t, dict(bind or {}), _metas_for(node, e, vars))
+
+
+def increment_of(st):
+    """`x += v` / `x = x + v` / `x = v + x` on a plain name -> (x, v node), else None"""
+    if isinstance(st, ast.AugAssign) and isinstance(st.op, ast.Add) and isinstance(st.target, ast.Name):
+        return st.target.id, st.value
+    if isinstance(st, ast.Assign) and len(st.targets) == 1 and isinstance(st.targets[0], ast.Name) and isinstance(st.value, ast.BinOp) \
+            and isinstance(st.value.op, ast.Add):
+        x = st.targets[0].id
+        if isinstance(st.value.left, ast.Name) and st.value.left.id == x:
+            return x, st.value.right
+        if isinstance(st.value.right, ast.Name) and st.value.right.id == x:
+            return x, st.value.left
+    return None
 
 
 def assigned_names(fn) -> set:
